@@ -56,7 +56,7 @@ def run(ctx, rep):
     rep.trusted = ['syn', 'astq evaluator', 'optional-idiom table from the property statement']
     T = emit.Types(ctx.astq)
     # ---- O1 parser
-    pr.all_attrs_rule(ctx, rep, 'O1', ('serde_default',), 2)
+    rep.section(pr.all_attrs_rule, ctx, rep, 'O1', ('serde_default',), 2, keys=('default',))
     sites = pr.field_sites(ctx)
     for f, st in sites:
         hv = vt.strip(st['v']['fields'].get('has_default'))
@@ -125,7 +125,7 @@ def run(ctx, rep):
         need = 2 if be == 'swift' else 1
         rep.floor('O2', f'{be}: field-line templates', lines_seen, need)
     # TypeScript newtype payload
-    ts_variant(ctx, rep, T)
+    rep.section(ts_variant, ctx, rep, T)
     rep.extra['evaluations'] = n_eval
 
 
